@@ -25,8 +25,19 @@ for f in $demos; do mv /tmp/seed_aside_$id/$f $f; done
 echo "demo_with_exit=$with demo_without_exit=$without suite_exit=$suite"
 # run the checks against /repo with the patch applied
 cd /verif
-git -C /repo apply --check $out/patch.diff || { echo "PATCH DOES NOT APPLY TO /repo"; exit 1; }
-git -C /repo apply $out/patch.diff
+if git -C /repo apply --check $out/patch.diff 2>/dev/null; then
+  git -C /repo apply $out/patch.diff
+elif git -C /repo apply --3way $out/patch.diff >/dev/null 2>&1 && ! git -C /repo diff --name-only --diff-filter=U | grep -q .; then
+  # the agent's worktree is older than /repo: merged three-way, kept as a rebased variant
+  h=$(git -C /repo log --format=%h -1)
+  git -C /repo diff HEAD > $out/patch_rebased_on_$h.diff
+  git -C /repo reset -q
+  echo "patch rebased on $h (3-way)"
+  (cd /repo && go build ./... ) || { echo "REBASED PATCH DOES NOT BUILD"; git -C /repo checkout -- .; exit 1; }
+else
+  git -C /repo reset -q; git -C /repo checkout -- .
+  echo "PATCH DOES NOT APPLY TO /repo"; exit 1
+fi
 res=""
 for p in $props; do
   ./check $p quick > $out/check_$p.log 2>&1; rc=$?
